@@ -314,7 +314,10 @@ class Driver:
             except Exception:  # pylint: disable=broad-except
                 pass            # no reaction took place
             entry[1] = self._seen()     # what the callback leaves behind is what the step must end with
-        if int(msg.type) == 1 and (self.react_once or (self.react_set and self._react_now(msg))):
+        # (a SET report, or the presentation of a child - unless this callback has already scheduled firmware: one call per step)
+        if ((int(msg.type) == 1 or (int(msg.type) == 0 and int(msg.child_id) != 255 and not (fw and self.reacted is not None)
+                                    and not self.react_once_fw))
+                and (self.react_once or (self.react_set and self._react_now(msg)))):
             import voluptuous as vol
             t2, v2, a2 = self.reacting = self.react_once or self.react_set
             try:
